@@ -176,7 +176,7 @@ _z3.RecAddDefinition(_V, [_t, _p, _bm, _k, _n], _z3.If(_n <= 0, _z3.Select(_bm, 
 _glob = _z3.Function("glob_result", _I, _S, _SI)
 _psrc = _z3.Function("parser_source", _I, _I)
 _TAGS = {"types": 0, "predicates": 1, "constants": 2, "actions": 3, "functions": 4}
-_DCLS = {"types": "dict_PDDLType", "predicates": "dict_str_ref", "constants": "dict_PDDLObject", "actions": "dict_str_ref", "functions": "dict_str_ref"}
+_DCLS = {"types": "dict_PDDLType", "predicates": "dict_Predicate", "constants": "dict_PDDLObject", "actions": "dict_str_ref", "functions": "dict_str_ref"}
 
 
 def _h_content(interp, st, a):
@@ -272,6 +272,6 @@ CONTRACTS[_MC + "locate_domains"] = dict(
                                "combined_domain.predicates != combined_domain.functions", "combined_domain.constants != combined_domain.actions",
                                "combined_domain.constants != combined_domain.functions", "combined_domain.actions != combined_domain.functions",
                                "DEFAULT_TYPES.keys() == old(DEFAULT_TYPES.keys())", "dict_map(DEFAULT_TYPES) == old(dict_map(DEFAULT_TYPES))"] + _LOOP_INV,
-                   modifies=["Domain.name", "Domain.requirements", "dict_PDDLType.keys", "dict_PDDLType.map", "dict_str_ref.keys", "dict_str_ref.map",
+                   modifies=["Domain.name", "Domain.requirements", "dict_PDDLType.keys", "dict_PDDLType.map", "dict_str_ref.keys", "dict_str_ref.map", "dict_Predicate.keys", "dict_Predicate.map",
                              "dict_PDDLObject.keys", "dict_PDDLObject.map"])},
     spec_hooks=_C17_HOOKS)
